@@ -157,7 +157,7 @@ class C18(vlib.Driver):
                                            prep=prep, obs_kind=obs_kind, source=source, mode=mode))
         for prep in ("fresh", "learned", "clone", "mutated"):       # the other source for the vector kind
             cases.append(self.one_case(rng, (5, 0.0, 0.7), prep=prep, obs_kind="vector", source="buffer", mode="combined"))
-        nseed = 45 if tier == "quick" else 300
+        nseed = 30 if tier == "quick" else 300
         for i in range(nseed):
             cfg = rng.choice(DYADIC + NONDYADIC)
             if tier == "quick" and cfg[0] > 21 and rng.random() < 0.6:
